@@ -83,7 +83,19 @@ impl Drop for AsyncWritableFile {
     fn drop(&mut self) {
         let mut content = vec![];
         swap(&mut content, self.content.get_mut());
-        futures::executor::block_on(self.fs.write()).files.insert(
+        let mut handle = futures::executor::block_on(self.fs.write());
+        if ensure_parent_directory(&handle.files, &self.destination).is_err() {
+            // the directory this file lived in is gone: like data written to an unlinked file, it goes nowhere
+            // (re-inserting the entry would leave a file without a parent directory)
+            return;
+        }
+        if let Some(file) = handle.files.get(&self.destination) {
+            if file.file_type == VfsFileType::Directory {
+                // the path was turned into a directory while this handle was open: never replace it
+                return;
+            }
+        }
+        handle.files.insert(
             self.destination.clone(),
             AsyncMemoryFile {
                 file_type: VfsFileType::File,
